@@ -27,6 +27,8 @@ type Obligation struct {
 	Bounded int      `json:"bounded,omitempty"`
 	Size    int      `json:"smt_bytes"`
 	Inputs  map[string]string `json:"-"`
+	Replay     *ReplayInfo `json:"-"`
+	ClauseExpr Expr        `json:"-"`
 }
 
 // Top holds what is shared by a top-level function verification and all the
@@ -55,6 +57,7 @@ type Top struct {
 	nbound     int
 	epochHeaps map[string]Term
 	nepoch     int
+	replay     *ReplayInfo
 }
 
 type deferred struct {
@@ -174,7 +177,9 @@ func (fr *Frame) oblige(st *State, kind, detail string, goal Term, clause *Claus
 	if clause != nil {
 		o.Clause = clause.Text
 		o.Props = clause.Props
+		o.ClauseExpr = clause.E
 	}
+	o.Replay = top.replay
 	if len(o.Props) == 0 {
 		o.Props = top.props
 	}
@@ -450,7 +455,9 @@ func (fr *Frame) execBody(st0 *State) (*State, []Val) {
 	}
 	order := rpo(fn)
 	in := map[*ssa.BasicBlock][]*State{}
+	inFrom := map[*ssa.BasicBlock][]*ssa.BasicBlock{}
 	in[fn.Blocks[0]] = []*State{st0}
+	inFrom[fn.Blocks[0]] = []*ssa.BasicBlock{nil}
 	var rets []retPoint
 	type loopCtx struct {
 		run *loopRun
@@ -463,9 +470,49 @@ func (fr *Frame) execBody(st0 *State) (*State, []Val) {
 		if len(ins) == 0 {
 			continue
 		}
+		// phi nodes (e.g. from && and ||): select by incoming edge
+		type phiVal struct {
+			p *ssa.Phi
+			v Val
+		}
+		var phis []phiVal
+		for _, instr := range b.Instrs {
+			p, ok := instr.(*ssa.Phi)
+			if !ok {
+				break
+			}
+			var cur Val
+			have := false
+			for i := len(ins) - 1; i >= 0; i-- {
+				from := inFrom[b][i]
+				idx := -1
+				for k, pr := range b.Preds {
+					if pr == from {
+						idx = k
+					}
+				}
+				if idx < 0 {
+					panic(unsupported("phi without matching predecessor"))
+				}
+				v := fr.val(ins[i], p.Edges[idx])
+				if !have {
+					cur, have = v, true
+					continue
+				}
+				m, ok := iteVal(ins[i].pc, v, cur)
+				if !ok {
+					panic(unsupported("phi of incompatible values"))
+				}
+				cur = m
+			}
+			phis = append(phis, phiVal{p, cur})
+		}
 		st := fr.mergeStates(ins)
 		if st.pc.S == "false" {
 			continue
+		}
+		for _, pv := range phis {
+			fr.setReg(pv.p, pv.v)
 		}
 		if li := loops[b]; li != nil {
 			lc := &loopCtx{li: li, run: &loopRun{}}
@@ -479,6 +526,8 @@ func (fr *Frame) execBody(st0 *State) (*State, []Val) {
 			switch instr.(type) {
 			case *ssa.If, *ssa.Jump, *ssa.Return, *ssa.Panic:
 				term = instr
+			case *ssa.Phi:
+				// handled above
 			default:
 				fr.execInstr(st, instr)
 				if st.pc.S == "false" {
@@ -505,6 +554,7 @@ func (fr *Frame) execBody(st0 *State) (*State, []Val) {
 				return
 			}
 			in[to] = append(in[to], s)
+			inFrom[to] = append(inFrom[to], b)
 		}
 		switch t := term.(type) {
 		case *ssa.Jump:
